@@ -12,7 +12,7 @@ import ast
 import os
 import re
 
-from ..core import AnalysisError, ClassInfo, FuncInfo, Program, call_name, const_value, dotted, unparse, walk_no_nested
+from ..core import AnalysisError, ClassInfo, FuncInfo, Program, call_name, const_value, dotted, inline_locals, unparse, walk_no_nested
 from ..packs import ecc, ord_pack
 from ..pattern import body_is, bound, expr_is, find, has, has_expr
 from ..report import Ctx
@@ -94,9 +94,15 @@ def leaf_tables(ctx: Ctx) -> dict[str, str]:
         if f is None:
             continue
         tabs: dict[str, set[str]] = {}
+        # `self.id_manager = <parameter>`: the parameter (never re-assigned) and the attribute are the same object in this method
+        alias = [unparse(n.value) for n in walk_no_nested(f.node) if isinstance(n, ast.Assign) and unparse(n.targets[0]) == 'self.id_manager' and isinstance(n.value, ast.Name)
+                 and n.value.id in f.positional_params() and not any(isinstance(m, ast.Name) and m.id == n.value.id and isinstance(m.ctx, ast.Store) for m in ast.walk(f.node))]
         for n in walk_no_nested(f.node):
             if isinstance(n, ast.Assign) and isinstance(n.targets[0], ast.Attribute) and unparse(n.targets[0].value) == 'self':
-                m = re.fullmatch(r'self\.id_manager\.(\w+)\.indices\[self\.name\]', unparse(n.value))
+                vtxt = unparse(inline_locals(f.node, n.value))
+                for a_ in alias:
+                    vtxt = re.sub(rf'(?<![\w.]){re.escape(a_)}\.', 'self.id_manager.', vtxt)
+                m = re.fullmatch(r'self\.id_manager\.(\w+)\.indices\[self\.name\]', vtxt)
                 if m:
                     tabs.setdefault(n.targets[0].attr, set()).add(m.group(1))
                 elif unparse(n.value) not in ('None', 'id_manager'):
@@ -704,8 +710,10 @@ def run(ctx: Ctx) -> None:
                     detail=str(missing) + str(own_last))
         want = EXPECTED[c.name]
         ok = got == want
-        ctx.add('C01.R3', f'{c.name}:record', ok, gs if gs is not generic else c,
-                f'<{c.name}> record: {got}' + ('' if ok else f' ; the reader parses: {want}'), detail=got)
+        # a field whose role was not established (it is rendered as a plain value the reader does not have) leaves the verdict open
+        untyped = set(re.findall(r'\{VAL:[^}]*\}', got)) - set(re.findall(r'\{VAL:[^}]*\}', want))
+        ctx.add('C01.R3', f'{c.name}:record', ok if (ok or not untyped) else None, gs if gs is not generic else c,
+                f'<{c.name}> record: {got}' + ('' if ok else f' ; the reader parses: {want}' + (f' (role of {sorted(untyped)} not established)' if untyped else '')), detail=got)
         # R2: conversion of every ExpressionOrNumeric parameter
         init = c.resolve('__init__')
         if init is not None:
